@@ -79,7 +79,8 @@ for o in range(147, 165):
     DELTA[o] = -1
 DELTA[157] = -2
 GROW = {126, 149, 141}          # ops that can double the size of an item
-UNSAFE_FREE = {152, 128}        # need a bounded count/length operand: only emitted through patterns
+UNSAFE_FREE = {152, 128}
+PURE_STACK = {119, 120, 124, 125, 109, 110, 123, 111, 112, 114, 113, 121, 122}   # do not interpret the items        # need a bounded count/length operand: only emitted through patterns
 
 
 def stack_script(items, o):
@@ -104,10 +105,10 @@ def opcode_alphabet(rng, tier):
         per_op = []
         for d in range(0, ar + 2):
             total = 12 ** d
-            if d <= min(ar, 2) or (tier == "thorough" and (d <= 2 or (d == 3 and ar >= 3))):
+            if (d <= min(ar, 2) and not (tier == "quick" and d == 2 and o in PURE_STACK)) or (tier == "thorough" and (d <= 2 or (d == 3 and ar >= 3))):
                 per_op.extend(all_stacks(d))
             else:
-                k = {"quick": [1, 4, 8, 10, 10, 8, 8, 8][d], "thorough": min(total, 700 if d <= 4 else 300)}[tier]
+                k = {"quick": [1, 4, 40, 10, 10, 8, 8, 8][d], "thorough": min(total, 700 if d <= 4 else 300)}[tier]
                 k = min(k, total)
                 seen = set()
                 while len(seen) < k:
@@ -160,7 +161,7 @@ def boundary_stream(rng, tier):
     NARROW = [num(-3), num(2), num(128), num(-(2 ** 31)), num(1), ""]
     for o in BINARY_NUM:
         for w in WIDE:
-            for v in (NARROW if tier == "thorough" else NARROW[:4]):
+            for v in (NARROW if tier == "thorough" else NARROW[:2]):
                 R(["0109", push(w), push(v), op(o)]); R(["0109", push(v), push(w), op(o)])
         for w in WIDE[:12]:
             R(["0109", push(w), push(w), op(o)])
